@@ -964,55 +964,76 @@ func c06RoundF(c *Ctx, w *World) {
 			if eb == nil {
 				continue
 			}
-			// appends of an element of the hook's receipts
-			for _, in := range allInstrs(fn) {
-				cc, ok := in.(*ssa.Call)
-				if !ok {
+			type scope struct {
+				fn   *ssa.Function
+				hook ssa.Value
+			}
+			scopes := []scope{{fn, eb}}
+			// the merge may live in a helper of the package that is handed the hook's result
+			for _, ci := range callInstrs(fn) {
+				g := ci.Common().StaticCallee()
+				if g == nil || g.Pkg != fn.Pkg || g.Blocks == nil {
 					continue
 				}
-				b, isB := cc.Call.Value.(*ssa.Builtin)
-				if !isB || b.Name() != "append" || len(cc.Call.Args) < 2 {
-					continue
-				}
-				// append(receipts, receipt): a one-element slice literal holding an element of the hook's result
-				elemOfHook := derivesFrom(cc.Call.Args[1], func(x ssa.Value) bool { return x == ssa.Value(eb) })
-				if !elemOfHook {
-					continue
-				}
-				if _, isPtrSlice := cc.Type().Underlying().(*types.Slice); !isPtrSlice {
-					continue
-				}
-				if sl, okS := cc.Type().Underlying().(*types.Slice); !okS || !strings.HasSuffix(sl.Elem().String(), "types.Receipt") {
-					continue
-				}
-				n++
-				c.sites++
-				c.sawFunc(fname(fn))
-				extra := ""
-				for _, a := range atomsOf(factsAt(cc.Block())) {
-					if a.Kind == "isnil" {
-						continue
-					}
-					for _, v := range []ssa.Value{a.X, a.Y} {
-						if v != nil && derivesFrom(v, func(x ssa.Value) bool { return x == ssa.Value(eb) }) {
-							if _, isLen := stripConvNoBind(v).(*ssa.Call); isLen || a.Kind == "cmp" || a.Kind == "eq" {
-								// the loop's own index test compares with len(result): ignore comparisons of the index
-								if cl, isCall := stripConvNoBind(v).(*ssa.Call); isCall {
-									if bi, isBi := cl.Call.Value.(*ssa.Builtin); isBi && bi.Name() == "len" {
-										if ex, isEx := stripConvNoBind(cl.Call.Args[0]).(*ssa.Extract); isEx && ex.Tuple == ssa.Value(eb) {
-											continue
-										}
-										if stripConvNoBind(cl.Call.Args[0]) == ssa.Value(eb) {
-											continue
-										}
-									}
-								}
-								extra = w.Pos(cc.Pos())
-							}
+				for i, a := range ci.Common().Args {
+					if i < len(g.Params) && derivesFrom(a, func(x ssa.Value) bool { return x == ssa.Value(eb) }) {
+						if _, isSl := g.Params[i].Type().Underlying().(*types.Slice); isSl {
+							scopes = append(scopes, scope{g, g.Params[i]})
 						}
 					}
 				}
-				c.Check(fmt.Sprintf("%s#hook-receipt-kept-iff-not-nil", fname(fn)), cc.Pos(), extra == "", ifelse(extra == "", "the receipt is appended under no condition but its being non-nil", "the receipt of the end-of-block hook is appended under a further condition on the receipt itself: builder and importer no longer keep the same receipts, the receipt roots differ"))
+			}
+			for _, sc := range scopes {
+				fn, eb := sc.fn, sc.hook
+				for _, in := range allInstrs(fn) {
+					cc, ok := in.(*ssa.Call)
+					if !ok {
+						continue
+					}
+					b, isB := cc.Call.Value.(*ssa.Builtin)
+					if !isB || b.Name() != "append" || len(cc.Call.Args) < 2 {
+						continue
+					}
+					// append(receipts, receipt): a one-element slice literal holding an element of the hook's result
+					elemOfHook := derivesFrom(cc.Call.Args[1], func(x ssa.Value) bool { return x == eb })
+					if !elemOfHook {
+						continue
+					}
+					if _, isPtrSlice := cc.Type().Underlying().(*types.Slice); !isPtrSlice {
+						continue
+					}
+					if sl, okS := cc.Type().Underlying().(*types.Slice); !okS || !strings.HasSuffix(sl.Elem().String(), "types.Receipt") {
+						continue
+					}
+					n++
+					c.sites++
+					c.sawFunc(fname(fn))
+					extra := ""
+					for _, a := range atomsOf(factsAt(cc.Block())) {
+						if a.Kind == "isnil" {
+							continue
+						}
+						for _, v := range []ssa.Value{a.X, a.Y} {
+							if v != nil && derivesFrom(v, func(x ssa.Value) bool { return x == eb }) {
+								if _, isLen := stripConvNoBind(v).(*ssa.Call); isLen || a.Kind == "cmp" || a.Kind == "eq" {
+									// the loop's own index test compares with len(result): ignore comparisons of the index
+									if cl, isCall := stripConvNoBind(v).(*ssa.Call); isCall {
+										if bi, isBi := cl.Call.Value.(*ssa.Builtin); isBi && bi.Name() == "len" {
+											if ex, isEx := stripConvNoBind(cl.Call.Args[0]).(*ssa.Extract); isEx && ex.Tuple == eb {
+												continue
+											}
+											if stripConvNoBind(cl.Call.Args[0]) == eb {
+												continue
+											}
+										}
+									}
+									extra = w.Pos(cc.Pos())
+								}
+							}
+						}
+					}
+					c.Check(fmt.Sprintf("%s#hook-receipt-kept-iff-not-nil", fname(fn)), cc.Pos(), extra == "", ifelse(extra == "", "the receipt is appended under no condition but its being non-nil", "the receipt of the end-of-block hook is appended under a further condition on the receipt itself: builder and importer no longer keep the same receipts, the receipt roots differ"))
+				}
 			}
 		}
 		if n < 3 {
